@@ -1309,3 +1309,150 @@ Proof.
   - cbn [map fst]. intros H. inversion H as [|? ? Hx _]; subst. apply Hx. right. now left.
   - vm_compute. intros n [<-|[<-|[]]]; tauto.
 Qed.
+
+(* ============================================================= the kind-L acceptor *)
+Lemma inserts_spec h : forall post pre l, In l (inserts h pre post) ->
+  exists a b, rev pre ++ post = a ++ b /\ l = a ++ h :: b.
+Proof.
+  induction post as [|x r IH]; intros pre l H; cbn [inserts In] in H.
+  - destruct H as [<-|[]]. exists (rev pre), []. split; reflexivity.
+  - destruct H as [<-|H].
+    + exists (rev pre), (x :: r). split; reflexivity.
+    + destruct (IH (x :: pre) l H) as (a & b & E & ->). exists a, b. split; [|reflexivity].
+      rewrite <- E. cbn [rev]. now rewrite <- app_assoc.
+Qed.
+
+Lemma inserts_complete h : forall post pre a b, post = a ++ b -> In (rev pre ++ a ++ h :: b) (inserts h pre post).
+Proof.
+  induction post as [|x r IH]; intros pre a b E.
+  - destruct a; [|discriminate]. destruct b; [|discriminate]. cbn. now left.
+  - destruct a as [|y a'].
+    + cbn [app] in E. subst b. cbn [inserts In app]. now left.
+    + cbn [app] in E. injection E as <- E. cbn [inserts In]. right.
+      specialize (IH (x :: pre) a' b E). cbn [rev] in IH. rewrite <- app_assoc in IH. exact IH.
+Qed.
+
+(* what an accepted two-read plan is: the head is an acceptable pick for the earlier liveness and
+   the rest is a plan accepted for the later liveness, or such a plan with the head taken out *)
+Theorem two_reads_matches_sound dcf rackf g keyspaces en1 co1 en2 co2 pol rq p :
+  two_reads_matches dcf rackf g keyspaces en1 co1 en2 co2 pol rq p = true ->
+  exists h rest, p = h :: rest /\
+    pick_matches dcf rackf g keyspaces en1 co1 pol rq (Some h) = true /\
+    exists F, plan_matches dcf rackf g keyspaces en2 co2 pol rq F = true /\
+      (rest = F \/ (~ In h rest /\ exists a b, F = a ++ h :: b /\ rest = a ++ b)).
+Proof.
+  destruct p as [|h rest]; [discriminate|]. cbn [two_reads_matches]. cbv zeta.
+  rewrite andb_true_iff. intros [Hp H]. exists h, rest. split; [reflexivity|]. split; [assumption|].
+  destruct (8 <=? group_of dcf rackf g keyspaces en2 co2 pol rq h)%nat.
+  - apply andb_true_iff in H. destruct H as [_ H]. exists rest. split; [assumption|now left].
+  - destruct (Bool.eqb _ _).
+    + apply andb_true_iff in H. destruct H as [Hn H]. apply negb_true_iff, mem_false in Hn.
+      apply existsb_exists in H. destruct H as (F & HF & Hm). exists F. split; [assumption|]. right. split; [assumption|].
+      destruct (inserts_spec h rest [] F HF) as (a & b & E & ->). cbn [rev app] in E. exists a, b. split; [reflexivity|assumption].
+    + apply andb_true_iff in H. destruct H as [_ H]. exists rest. split; [assumption|now left].
+Qed.
+
+Lemma remove_split (h : N) l : NoDup l -> In h l ->
+  exists a b, l = a ++ h :: b /\ remove_by N.eqb h l = a ++ b.
+Proof.
+  intros Hn Hi. apply in_split in Hi. destruct Hi as (a & b & ->). exists a, b. split; [reflexivity|].
+  apply NoDup_remove_2 in Hn. rewrite in_app_iff in Hn.
+  rewrite !remove_by_filter, filter_app. cbn [filter]. rewrite N.eqb_refl. cbn [negb]. rewrite <- !remove_by_filter.
+  rewrite !remove_by_filter.
+  rewrite (filter_id_all _ a), (filter_id_all _ b); [reflexivity| |];
+    intros y Hy; apply negb_true_iff, N.eqb_neq; intros ->; tauto.
+Qed.
+
+Lemma filter_ws_ns shf p l :
+  filter (fun x => negb (target_eqb x (no_shard p))) (map (with_shard shf) l) = map (with_shard shf) l.
+Proof.
+  apply filter_id_all. intros x Hx. apply in_map_iff in Hx. destruct Hx as (n & <- & _).
+  unfold target_eqb. cbn [with_shard no_shard fst snd oeqb]. now rewrite andb_false_r.
+Qed.
+
+Section TwoReadsAccept.
+  Variables (dcf rackf : N -> option N) (g : ring N) (keyspaces : list (N * strategy)).
+  Variables (en1 co1 en2 co2 : N -> bool) (shf : N -> N) (pol : policy) (rq : request).
+  Hypothesis Hs : sorted_weak g.
+  Hypothesis Hk : forall k s, ks_lookup keyspaces k = Some s -> nts_keys_ok s.
+  Variables (cho : nat -> nat -> nat) (shuf : nat -> list N -> list N).
+  Hypothesis Hshuf : forall site l, Permutation (shuf site l) l.
+  Hypothesis Hcho : forall site len, (0 < len)%nat -> (cho site len < len)%nat.
+
+  Local Notation R2 := (concat (seg_replicas dcf rackf g keyspaces en2 co2 pol rq shuf)).
+  Local Notation N2 := (concat (seg_nodes dcf rackf g en2 co2 pol rq cho)).
+  Local Notation X2 := (filter (fun n => negb (mem n R2)) (uniq N2)).
+  Local Notation fb2 := (fallback dcf rackf g keyspaces en2 co2 shf pol rq cho shuf).
+  Local Notation g2 := (group_of dcf rackf g keyspaces en2 co2 pol rq).
+
+  Lemma fb2_nodes : map fst fb2 = uniq R2 ++ X2.
+  Proof. rewrite fallback_structure, map_app, !map_map. cbn [with_shard no_shard fst]. now rewrite !map_id. Qed.
+
+  Lemma fb2_In h : In h (map fst fb2) <-> (g2 h < 8)%nat.
+  Proof.
+    rewrite fallback_nodes, uniq_In, (concat_segs_cond dcf rackf g keyspaces en2 co2 shf pol rq Hs Hk cho shuf Hshuf).
+    rewrite group_of_first_true. symmetry. apply (first_true_lt (conds dcf rackf g keyspaces en2 co2 pol rq) h).
+  Qed.
+
+  (* the model's two-read plan is accepted by the kind-L acceptor, for every oracle *)
+  Theorem two_reads_accepted pl :
+    plan_two_reads dcf rackf g keyspaces en1 co1 en2 co2 shf pol rq cho shuf = Some pl ->
+    two_reads_matches dcf rackf g keyspaces en1 co1 en2 co2 pol rq (map fst pl) = true.
+  Proof.
+    unfold plan_two_reads.
+    pose proof (pick_matches_model dcf rackf g keyspaces en1 co1 shf pol rq Hs Hk cho shuf Hshuf Hcho) as Hpm.
+    pose proof (pick_spec dcf rackf g keyspaces en1 co1 shf pol rq Hs Hk cho shuf Hshuf Hcho) as Hps.
+    pose proof (fallback_matches dcf rackf g keyspaces en2 co2 shf pol rq Hs Hk cho shuf Hshuf) as Hf2.
+    destruct (pick dcf rackf g keyspaces en1 co1 shf pol rq cho) as [[h sh]|]; [|discriminate].
+    intros [= <-]. cbn [option_map fst] in Hpm. cbn [map fst two_reads_matches]. cbv zeta. rewrite Hpm. cbn [andb].
+    unfold pick_result_ok in Hps. destruct Hps as (k & c & Hc & Hp & Hb & Hsh & _).
+    destruct (group_of_exact dcf rackf g keyspaces en1 co1 shf pol rq Hs Hk cho shuf Hshuf Hcho k c h Hc Hp Hb) as (Hg1 & _ & _ & _).
+    rewrite Hg1.
+    assert (Hnd : NoDup (map fst fb2)) by (rewrite fallback_nodes; apply uniq_NoDup).
+    set (tl := filter (fun x => negb (target_eqb x (h, sh))) fb2).
+    destruct (8 <=? g2 h)%nat eqn:E8.
+    - (* the picked node is not allowed any more: nothing to remove *)
+      apply Nat.leb_le in E8. assert (Hnot : ~ In h (map fst fb2)) by (rewrite fb2_In; lia).
+      assert (Etl : tl = fb2).
+      { apply filter_id_all. intros x Hx. apply negb_true_iff. destruct (target_eqb x (h, sh)) eqn:Ex; [|reflexivity].
+        exfalso. apply target_eqb_eq in Ex. subst x. apply Hnot. change h with (fst (h, sh)). now apply in_map. }
+      rewrite Etl. apply andb_true_iff. split; [apply negb_true_iff, mem_false; exact Hnot|exact Hf2].
+    - apply Nat.leb_gt in E8. assert (Hin : In h (map fst fb2)) by (now apply fb2_In).
+      assert (HinC : In h (concat (seg_replicas dcf rackf g keyspaces en2 co2 pol rq shuf ++ seg_nodes dcf rackf g en2 co2 pol rq cho))).
+      { rewrite fallback_nodes, uniq_In in Hin. exact Hin. }
+      pose proof (replica_group_iff dcf rackf g keyspaces en2 co2 shf pol rq Hs Hk cho shuf Hshuf h HinC) as Hrg.
+      rewrite fb2_nodes in Hin, Hnd, Hf2. unfold tl. rewrite fallback_structure, filter_app, map_app.
+      assert (HndR : NoDup (uniq R2)) by apply uniq_NoDup.
+      assert (HndX : NoDup X2) by (apply NoDup_filter, uniq_NoDup).
+      destruct (g2 h <? 3)%nat eqn:E3.
+      + (* later: a replica target (with shard) *)
+        apply Nat.ltb_lt in E3. assert (HR : In h R2) by now apply Hrg. assert (HuR : In h (uniq R2)) by now apply uniq_In.
+        assert (HnX : ~ In h X2).
+        { intros C. apply filter_In in C. destruct C as [_ C]. apply negb_true_iff, mem_false in C. contradiction. }
+        destruct (k <? 3)%nat eqn:Ek; subst sh; cbn [Bool.eqb].
+        * change (h, Some (shf h)) with (with_shard shf h). rewrite filter_ws_ws, filter_ns_ws, !map_map. cbn [with_shard no_shard fst]. rewrite !map_id.
+          destruct (remove_split h (uniq R2) HndR HuR) as (a & b & Ea & Er). rewrite Er.
+          apply andb_true_iff. split.
+          -- apply negb_true_iff, mem_false. rewrite <- Er. rewrite in_app_iff, (remove_by_In N.eqb Neqb_eq). tauto.
+          -- apply existsb_exists. exists (uniq R2 ++ X2). split; [|exact Hf2].
+             rewrite Ea, <- !app_assoc. cbn [app].
+             exact (inserts_complete h (a ++ b ++ X2) [] a (b ++ X2) eq_refl).
+        * change (h, @None N) with (no_shard h). rewrite filter_ws_ns, filter_ns_ns, !map_map. cbn [with_shard no_shard fst]. rewrite !map_id.
+          rewrite (remove_by_notin h X2 HnX). apply andb_true_iff. split; [apply mem_In; exact Hin|exact Hf2].
+      + (* later: a node target (no shard) *)
+        apply Nat.ltb_ge in E3. assert (HR : ~ In h R2) by (intros C; apply Hrg in C; lia).
+        assert (HuR : ~ In h (uniq R2)) by (rewrite uniq_In; exact HR).
+        assert (HX : In h X2) by (apply in_app_or in Hin; tauto).
+        destruct (k <? 3)%nat eqn:Ek; subst sh; cbn [Bool.eqb].
+        * change (h, Some (shf h)) with (with_shard shf h). rewrite filter_ws_ws, filter_ns_ws, !map_map. cbn [with_shard no_shard fst]. rewrite !map_id.
+          rewrite (remove_by_notin h (uniq R2) HuR). apply andb_true_iff. split; [apply mem_In; exact Hin|exact Hf2].
+        * change (h, @None N) with (no_shard h). rewrite filter_ws_ns, filter_ns_ns, !map_map. cbn [with_shard no_shard fst]. rewrite !map_id.
+          destruct (remove_split h X2 HndX HX) as (a & b & Ea & Er). rewrite Er.
+          apply andb_true_iff. split.
+          -- apply negb_true_iff, mem_false. rewrite <- Er. rewrite in_app_iff, (remove_by_In N.eqb Neqb_eq). tauto.
+          -- apply existsb_exists. exists (uniq R2 ++ X2). split; [|exact Hf2].
+             rewrite Ea, !app_assoc.
+             exact (inserts_complete h ((uniq R2 ++ a) ++ b) [] (uniq R2 ++ a) b eq_refl).
+  Qed.
+End TwoReadsAccept.
+
